@@ -28,6 +28,10 @@ injective) and, evaluated on representative names, rejects every name with a
 separator, a NUL or a dot directory. WRK-1 - an exception raised by Task.do
 (a command that cannot be started) is turned into FAILED by the worker, which
 still acknowledges the task (path interpretation of the worker loop).
+START-SCOPE - the description-time methods of RunTask / RunTaskFactory raise
+no OSError and no exception guarded by a file-system probe (which / exists /
+access ...): a missing executable fails the task at run time, not the job
+description.
 Not decided: the content of the captured files; commands killed by signals;
 the empty task name.
 '''
@@ -44,6 +48,7 @@ def check(ctx):
     ctx.run(extcmd.check_cap_flow)
     ctx.run(extcmd.check_sanitize)
     ctx.run(extcmd.check_sanitizer_body)
+    ctx.run(extcmd.check_start_scope)
     ctx.run(sched_worker.check_wrk1)
 
 
@@ -233,4 +238,29 @@ def variants(program):
             fun, lambda n: isinstance(n, ast.Compare) and "('.', '..')" in
             txt(n), lambda n: parse_expr("name == '.' or name == '..'"))
     add('twin-dot-tests-spelled-out', 'twin', PATHM, dots_eq)
+    def factory_probes_executable(tree):
+        # seed C19-r2-3
+        fun = find_func(tree, 'RunTaskFactory.from_executable')
+        pos = 1 if isinstance(fun.body[0], ast.Expr) else 0
+        fun.body[pos:pos] = parse_stmts(
+            'import shutil\n'
+            'if shutil.which(path) is None:\n'
+            "    raise FileNotFoundError(2, 'executable not found', path)")
+        return True
+    add('seed-factory-refuses-a-missing-executable', 'mutant', RUNM,
+        factory_probes_executable, {'START-SCOPE'},
+        note='the job description raises: the whole run is lost, and an '
+             'executable built by an earlier task is refused')
+
+    def factory_warns_only(tree):
+        fun = find_func(tree, 'RunTaskFactory.from_executable')
+        pos = 1 if isinstance(fun.body[0], ast.Expr) else 0
+        fun.body[pos:pos] = parse_stmts(
+            'import shutil\n'
+            'if shutil.which(path) is None:\n'
+            "    LOGGER.warning('executable %s not found (yet)', path)")
+        return True
+    add('twin-factory-warns-about-a-missing-executable', 'twin', RUNM,
+        factory_warns_only)
+
     return out
